@@ -515,6 +515,11 @@ class IndentationFitter(object):
                 self.range_x = list(np.array(range_x)+cp)
                 # Second, fit with the new contact point as range parameters
                 self.fit()
+            if not self.fp["success"]:
+                # The last pass could not be performed: the numbers of
+                # the previous passes are not the result of this fit.
+                for key in ["params_fitted", "chi_sqr", "xmin", "xmax"]:
+                    self.fp.pop(key, None)
 
         # Reset range data to original values
         self.range_type = range_type
